@@ -12,6 +12,8 @@ requests (one per line):
   getdim <sys> <i> <key> <cold T|F>                                               -> value | reject
   setdim <sys> <i> <key> <v> <cold T|F> <readCold T|F>                            -> value read back | reject
   setdimat <sys> <i> <key> <v> <cold> <retainLink> <qi> <qkey> <readCold>   set in a block, then read (qi,qkey)
+  derivedarea <maxArea> [sibAreas]                                                -> area
+  getdimtc <sys> [factorAtTc|_ per component] <i> <key>     getDimension(key, Tc=T)   -> value | reject
   <sys> := comp('|'comp)*   comp := <S|F>;<factor|_>;[expdim,..];name=val,name=@j.key,...
 -/
 
@@ -102,6 +104,15 @@ def answer : List String → String
       | none => "reject"
       | some sys' => showOpt showRat (getDimension sys' (sys'.length + 1) qi qkey rc)
     | _, _, _, _, _, _, _ => "bad-op"
+  | ["derivedarea", a, as] =>
+    match parseRat? a, parseRatList? as with
+    | some a, some as => showRat (derivedArea a as)
+    | _, _ => "bad-op"
+  | ["getdimtc", sys, fs, i, key] =>
+    match parseSys? sys, parseList? (fun s => if s = "_" then some none else (parseRat? s).map some) fs, parseNat? i with
+    | some sys, some fs, some i =>
+      if fs.length ≠ sys.length then "bad-op" else showOpt showRat (getDimensionTc sys fs (sys.length + 1) i key)
+    | _, _, _ => "bad-op"
   | _ => "bad-op"
 
 def main : IO Unit := loop answer
